@@ -139,11 +139,15 @@ func transportOps() []trOp {
 			return &createtopics.Request{TimeoutMs: 100, Topics: []createtopics.RequestTopic{{Name: "nt", NumPartitions: 1, ReplicationFactor: 1}}, ValidateOnly: true}
 		}},
 		{fakecluster.KDeleteTopics, "DeleteTopics", func() protocol.Message { return &deletetopics.Request{TopicNames: []string{"absent"}, TimeoutMs: 100} }},
-		{fakecluster.KInitProducerID, "InitProducerId", func() protocol.Message { return &initproducerid.Request{TransactionalID: "tx", TransactionTimeoutMs: 100} }},
+		{fakecluster.KInitProducerID, "InitProducerId", func() protocol.Message {
+			return &initproducerid.Request{TransactionalID: "tx", TransactionTimeoutMs: 100}
+		}},
 		{24, "AddPartitionsToTxn", func() protocol.Message {
 			return &addpartitionstotxn.Request{TransactionalID: "tx", ProducerID: 1, Topics: []addpartitionstotxn.RequestTopic{{Name: connTopic, Partitions: []int32{0}}}}
 		}},
-		{25, "AddOffsetsToTxn", func() protocol.Message { return &addoffsetstotxn.Request{TransactionalID: "tx", ProducerID: 1, GroupID: "g"} }},
+		{25, "AddOffsetsToTxn", func() protocol.Message {
+			return &addoffsetstotxn.Request{TransactionalID: "tx", ProducerID: 1, GroupID: "g"}
+		}},
 		{26, "EndTxn", func() protocol.Message { return &endtxn.Request{TransactionalID: "tx", ProducerID: 1, Committed: true} }},
 		{28, "TxnOffsetCommit", func() protocol.Message {
 			return &txnoffsetcommit.Request{TransactionalID: "tx", GroupID: "g", ProducerID: 1, Topics: []txnoffsetcommit.RequestTopic{{Name: connTopic, Partitions: []txnoffsetcommit.RequestPartition{{Partition: 0, CommittedOffset: 1}}}}}
@@ -198,7 +202,7 @@ type c17ConnCase struct {
 }
 
 func runC17(c *core.Ctx) {
-	ops := connOps()
+	ops := connOpsC17()
 	modes := []fakenet.CutMode{fakenet.CutEOF, fakenet.CutReset}
 	if !c.Quick() {
 		modes = append(modes, fakenet.CutStall)
@@ -211,7 +215,7 @@ func runC17(c *core.Ctx) {
 	refs := map[[2]int]ref{}
 	for i, op := range ops {
 		for _, v := range op.Versions {
-			env := newConnEnv(map[int]int{op.API: v})
+			env := newConnEnvCodecs(map[int]int{op.API: v}, op.codecs())
 			cn, err := env.dial()
 			if err != nil {
 				continue
@@ -257,7 +261,7 @@ func runC17(c *core.Ctx) {
 		if cs.k%50 == 0 {
 			k.Describe(map[string]any{"op": op.Name, "version": cs.ver, "cut_at": cs.k, "of": rf.n, "ending": cs.mode.String()})
 		}
-		env := newConnEnv(map[int]int{op.API: cs.ver})
+		env := newConnEnvCodecs(map[int]int{op.API: cs.ver}, op.codecs())
 		defer env.Cluster.Close()
 		cn, err := env.dial()
 		if err != nil {
